@@ -169,6 +169,35 @@ def recovery(rep, r, n):
                 break
 
 
+def combined_fix_requests(rep, r, n):
+    """(S) one parameter fixed through the EllipseGeometry constructor and another one through a fit_image keyword: both requests are
+    honoured exactly on the well-sampled isophotes (defect F71: the keyword replaced the geometry's flags)"""
+    combos = [('pa', 'center'), ('center', 'eps'), ('eps', 'pa'), ('center', 'pa'), ('pa', 'eps'), ('eps', 'center')]
+    for k in range(n):
+        gal = gen_galaxy(r, frame='square')
+        img, _ = galaxy(gal['shape'], gal['x0'], gal['y0'], gal['eps'], gal['pa'], gal['law'], gal['r0'])
+        via_geo, via_call = combos[(k + r.randrange(6)) % 6] if k else combos[0]
+        init = dict(x0=gal['x0'] + 0.4, y0=gal['y0'] - 0.3, sma=12.0, eps=min(0.85, max(0.05, gal['eps'] + 0.03)), pa=gal['pa'] + 0.05)
+        kw = dict(sma0=12.0, minsma=3.0, maxsma=35.0, step=0.15, **{f'fix_{via_call}': True})
+        rp = {'galaxy': gal, 'kwargs': kw, 'init': init, 'geometry_fix': via_geo, 'fit_image_fix': via_call}
+        try:
+            iso, _ = fit(gal, img, kw, init, geo_fix={f'fix_{via_geo}': True})
+        except Exception as e:                                  # noqa: BLE001
+            rep.violation(f'fit_image-raises:{type(e).__name__}:combined-fix', f'fit_image raised {e!r}', rp)
+            continue
+        rep.case(('combined-fix', via_geo, via_call, tuple(sorted((kk, str(v)) for kk, v in gal.items()))), len(iso) > 3, kind=f'combined-fix:{via_geo}+{via_call}')
+        rep.probe_only += 1
+        for i in iso:
+            if i.sma < 4 or i.stop_code != 0:
+                continue
+            held = {'center': i.x0 == init['x0'] and i.y0 == init['y0'], 'pa': i.pa == init['pa'], 'eps': i.eps == init['eps']}
+            lost = [w_ for w_ in (via_geo, via_call) if not held[w_]]
+            if lost:
+                rep.violation(f'fix-not-honoured:combined:{lost[0]}', f'fix_{via_geo}=True in the EllipseGeometry and fix_{via_call}=True in fit_image: the isophote at sma '
+                              f'{i.sma:.2f} has (x0, y0, eps, pa) = ({i.x0}, {i.y0}, {i.eps}, {i.pa}); start {init} - fix_{lost[0]} is not honoured', rp)
+                break
+
+
 def pa_wrap_probe(rep, r, n):
     """(S) the position angle is defined modulo pi: a galaxy whose major axis lies exactly along +x (or within rounding of it, where the
     fitted PA alternates between ~0 and ~pi) must be modelled as well as the same galaxy turned by 0.01 rad"""
@@ -211,9 +240,14 @@ def polar_correspondence(rep, r, n):
             x, y = x0 + r.choice([-3.0, 0.0, 2.0]), y0 + r.choice([-2.0, 0.0, 4.0])       # on the axes / at the centre
         else:
             x, y = r.uniform(0, 30), r.uniform(0, 30)
+        integer = k % 4 == 3
+        if integer:
+            # integer pixel coordinates (index arrays) and an integer centre: the array form works in float all the same (defect F68)
+            x0, y0, x, y = int(round(x0)), int(round(y0)), int(round(x)), int(round(y))
         g = EllipseGeometry(x0, y0, 5.0, 0.3, pa)
-        rs, as_ = g.to_polar(float(x), float(y))
+        rs, as_ = g.to_polar(x if integer else float(x), y if integer else float(y))
         rv, av = g.to_polar(np.array([x]), np.array([y]))
+        x0, y0, x, y = float(x0), float(y0), float(x), float(y)
         lines.append(f'topolar {fbits(x0)} {fbits(y0)} {fbits(pa)} {fbits(x)} {fbits(y)}')
         exp.append((float(rs), float(as_), float(np.ravel(rv)[0]), float(np.ravel(av)[0]), dict(x0=x0, y0=y0, pa=pa, x=x, y=y)))
     out = drv.run(lines)
@@ -305,6 +339,7 @@ def run(rep, tier):
     polar_correspondence(rep, r, 300 * scale)
     growth_correspondence(rep, r, 6 * scale)
     pa_wrap_probe(rep, r, 2 * scale)
+    combined_fix_requests(rep, r, 2 * scale)
     recovery(rep, r, 6 * scale * (2 if not rep.lean.ok else 1))      # a broken proof / extraction: search longer for a failing input
 
 
